@@ -436,18 +436,7 @@ theorem arcReplaced_mem {a : Agent} {c e : Cand} (h : e ∈ arcReplaced a c) :
     rw [List.mem_filter] at h
     obtain ⟨h1, h2⟩ := h
     simp [arcC0, Cand.taEqual] at h2 hty
-    exact ⟨h1, h2.1.1, h2.1.2, h2.2.1.2, hty⟩
-
-/-- a superseded candidate was created from the same address literal as the superseding one
-(`transportAddressEqual` compares `Address()` strings) -/
-theorem arcReplaced_form {a : Agent} {c e : Cand} (h : e ∈ arcReplaced a c) : e.form = c.form := by
-  unfold arcReplaced at h
-  split at h
-  · cases h
-  · rw [List.mem_filter] at h
-    obtain ⟨_, h2⟩ := h
-    simp [arcC0, Cand.taEqual] at h2
-    exact h2.2.2
+    exact ⟨h1, h2.1.1, h2.1.2, h2.2.2, hty⟩
 
 /-- uids of the superseded candidates -/
 def arcS (a : Agent) (c : Cand) : List Nat := (arcReplaced a c).map (·.uid)
@@ -646,7 +635,7 @@ theorem Inv.addRemoteCandidate {a : Agent} (h : Inv a) (c : Cand) (hc : a.closed
       have he := List.find?_some hf
       rw [List.mem_filter] at hm
       simp [Cand.equal, Cand.taEqual] at he
-      exact ⟨mem_rcsOf hm.1, by simpa using hm.2, he.1.1.1.2⟩
+      exact ⟨mem_rcsOf hm.1, by simpa using hm.2, he.1.1.2⟩
     | none =>
       rw [arc_eq a c hb hf]
       obtain ⟨h1, h2, h3⟩ := arcA4_spec h c hc hb hf
